@@ -7,7 +7,7 @@ T=$(mktemp -d /tmp/verif-try-XXXX); R=/repo
 if [ "$S" != "-" ]; then git clone -q /repo $T/repo && git -C $T/repo apply $(realpath $S)/patch.diff || exit 1; R=$T/repo; fi
 COMMON=rt.go,refcodec.go,vconn.go,util.go,vbroker.go
 export GOFLAGS=-mod=mod GOPROXY=off GOSUMDB=off GOTOOLCHAIN=local
-/usr/bin/time -f "wall=%es" /verif/bin/symgo -repo $R -harness-dir /verif/harness -files $COMMON,$FILES -harness $H -out $T/out.json "$@" 2>&1 | tail -5
+/usr/bin/time -f "wall=%es" ${SYMGO:-/verif/bin/symgo} -repo $R -harness-dir /verif/harness -files $COMMON,$FILES -harness $H -out $T/out.json "$@" 2>&1 | tail -5
 python3 - $T/out.json <<'PY'
 import json,sys
 d=json.load(open(sys.argv[1]))
@@ -16,9 +16,9 @@ for r in rs:
     print(r.get('harness'),r.get('verdict'),'paths',r.get('paths'),'wall',r.get('wall_s'),'bounds',r.get('bound_hits'),'reach',r.get('reach'))
     seen=set()
     for v in r.get('violations') or []:
-        k=v.get('assert')
+        k=(v.get('assert'),v.get('msg'))
         if k in seen: continue
-        seen.add(k); print('  VIOL',k,'|',' '.join(v.get('events') or [])[:500])
+        seen.add(k); print('  VIOL',k,v.get('site'),'|',' '.join(v.get('events') or [])[:500])
     for w in (r.get('inconclusive_reasons') or [])[:5]: print('  INC',str(w)[:300])
 PY
 rm -rf $T
